@@ -171,6 +171,22 @@ CLAIMS["C11"] = (
     "only; thread interleavings are C12's subject.",
     "DESIGN.md section 5 C11", TECH)
 
+CLAIMS["C08"] = (
+    "Proof: C08_literal_is_the_value (the literal a default is rendered as evaluates to that very value, same type, for all "
+    "nestings of list / tuple / dict / slice over scalars, look-alikes of 0/1/True/False, builtins); "
+    "C08_default_clause_is_own_default; C08_call_binds_exactly (for every valid shape and every status of every field, the "
+    "generated call binds under Python's rules every passed field - and nothing else - to its own parameter exactly once: "
+    "positional run, keywords after the first skipped / packed / keyword-only parameter, **packed_fields); "
+    "C08_constructed_exactly (whole load: each field holds the loaded value or what the class produces for its declared "
+    "default); C08_factory_results_fresh; C08_missing_required_no_call. Tied to the code by two correspondences (text of "
+    "get_literal_expr on random value trees; raw constructor call logged by a metaclass, resulting attributes and number of "
+    "factory calls for random dataclass / attrs / __init__ shapes x subsets of optional fields incl. falsy loaded values) "
+    "and a direct oracle (result == class called directly, exact types, one call, __post_init__ ran, no shared default).",
+    "Trusted: Coq kernel; Python's evaluation of displays and call binding as modelled in Ctor.eval / Ctor.bind (compared on "
+    "every case); str / bytes repr per Model/Repr.v over ASCII / bytes. NamedTuple, TypedDict, pydantic and SQLAlchemy "
+    "constructors are C17's subject; non-flat crowns C03's.",
+    "DESIGN.md section 5 C08", TECH)
+
 NOT_YET = "check not built yet in this session (DESIGN.md section 10 build order); not claimed until its model, theorems and correspondence exist"
 
 
